@@ -15,7 +15,7 @@ preprocessor itself (`#if (e) == v` selecting the value of a marker macro).  A b
 declarations are isolated.  Oracle sanity: g++ compiles the SAME headers and prints the same
 constants; spec != g++ is a MachineryError, never a violation."""
 import os, json, subprocess, sys
-from ..common import MachineryError, VERIF, NCPU
+from ..common import MachineryError, VERIF
 from .. import build, tlc, run
 from .. import constexpr as X
 
@@ -267,7 +267,7 @@ def header_text(cases, values):
 class Runner:
     def __init__(self, ctx):
         self.ctx = ctx
-        self.n = 0
+        self.abnormal = []
         self.lib = os.path.join(build.libdir(), "libinterrogatedb.so")
 
     def run_cases(self, cases, tag):
@@ -291,7 +291,7 @@ class Runner:
             raise MachineryError("c07_dump.py failed on %s: %s" % (db, p.stderr[-1000:]))
         return "ok", json.loads(p.stdout)
 
-    def isolate(self, cases, tag, depth=0):
+    def isolate(self, cases, tag):
         """Bisect an abnormally ending batch.  Returns [(cases, observation)] for the parts that ran and
         reports every isolated offending case."""
         st, obs = self.run_cases(cases, tag)
@@ -304,9 +304,7 @@ class Runner:
             self.abnormal.append(c["id"])
             return []
         h = len(cases) // 2
-        return self.isolate(cases[:h], tag + "a", depth + 1) + self.isolate(cases[h:], tag + "b", depth + 1)
-
-    abnormal = []
+        return self.isolate(cases[:h], tag + "a") + self.isolate(cases[h:], tag + "b")
 
 
 def short(c):
@@ -521,7 +519,6 @@ def run_check(ctx):
 
     # ---- replay ------------------------------------------------------------------------------
     rn = Runner(ctx)
-    rn.abnormal = []
     batches = [cases[i:i + BATCH] for i in range(0, len(cases), BATCH)]
     stats = dict(compared=0, unevaluated_allowed=0, hard_unevaluated=0, hard_evaluated=0, oracle_constants=0)
 
